@@ -656,7 +656,7 @@ def dec_spec(r):
     return ('error', r.word())
 
 
-def fresh_cli(env_kwargs, argv, optimise=False, env_extra=None, timeout=120):
+def fresh_cli(env_kwargs, argv, optimise=False, env_extra=None, timeout=120, on_pty=False):
     """`peltool.py <argv>` in a SEPARATE interpreter that has the fixture parser modules of PluginEnv(**env_kwargs) installed
     (harness/freshrun.py): (stdout, stderr, exit status).  `optimise` = python -O; `env_extra` e.g. {'PYTHONIOENCODING': 'ascii'}."""
     import subprocess
@@ -667,6 +667,9 @@ def fresh_cli(env_kwargs, argv, optimise=False, env_extra=None, timeout=120):
         if k in kw:
             kw[k] = plain(kw[k])
     cmd = [common.PY] + (['-O'] if optimise else []) + ['-W', 'ignore', '-B', os.path.join(os.path.dirname(os.path.abspath(__file__)), 'freshrun.py'), json.dumps(kw)] + list(argv)
+    if on_pty:
+        so, rc = common.run_on_pty(cmd, env=dict(common.child_env(), **(env_extra or {})), timeout=timeout)
+        return so, '', rc
     try:
         p = subprocess.run(cmd, stdout=subprocess.PIPE, stderr=subprocess.PIPE, env=dict(common.child_env(), **(env_extra or {})), timeout=timeout)
     except subprocess.TimeoutExpired as e:
